@@ -639,3 +639,29 @@ Theorem C03_angle_link_instance :
      $"see <a href=" ++ [34%Z] ++ $"./my%20docs/a%20(b).html" ++ [34%Z] ++ $">the site</a>, ok").
 Proof. vm_compute. repeat split; reflexivity. Qed.
 Print Assumptions C03_angle_link_instance.
+
+(* an inline link whose TEXT HOLDS EMPHASISED PHRASES (Proofs/LinkEmph.v): pre [h *w1* t1 __w2__ t2 ... z](dest) post is the text, ONE Link
+   whose children are h, the phrases (Emphasis / Strong, any number, * or _) each with the text after it, and z, then the text.  At "]"
+   find_link_image walks down over the delimiter runs to the bracket (li_down_skip), the destination is matched, and process_emphasis WITH
+   THE BRACKET AS STACK BOTTOM pairs the runs above it (emph_loop_link); the span tokenizer nests the phrase candidates into the link's
+   parse group (tokenize_nested).  Also an inline element of leaf FOne: HTML with the phrases inside the <a>, Markdown round trip *)
+From Mistletoe Require Import Proofs.EmphPhrases Proofs.NestedEmph Proofs.LinkEmph.
+Theorem C03_link_with_emphasis : forall types fn pre h ps z dest post,
+  ref_spans types = true -> elink_ok pre h ps z dest post = true ->
+  Inline.tokenize_inner types fn (pre ++ [91%Z] ++ (h ++ body ps ++ z) ++ [93%Z; 40%Z] ++ dest ++ [41%Z] ++ post) =
+  EmphSentence.raw_if pre ++ [elink_of h ps z dest] ++ EmphSentence.raw_if post.
+Proof. exact link_with_emphasis. Qed.
+Print Assumptions C03_link_with_emphasis.
+
+Theorem C03_link_with_emphasis_instance :
+  (elink_ok ($"see ") ($"the ") [(42, 0%nat, $"new", $" and "); (95, 1%nat, $"very good", $" ")]%Z ($"site") ($"http://ex.am/a?b=c") ($", ok") = true) /\
+  (elink_ok [] [] [(42, 1%nat, $"all", $".")]%Z [] ($"/x") [] = true) /\
+  (elink_ok [] ($"a") [(42, 0%nat, $"b", $" ")]%Z [] ($"/x") [] = false) /\ (elink_ok [] [] [] ($"z") ($"/x") [] = false) /\
+  (let x := ILinkE ($"the ") [(42, 0%nat, $"new", $" and "); (95, 1%nat, $"very good", $" ")]%Z ($"site") ($"/s") in
+   let t := FQuote [FOne 115 $"ee " x $", ok"; FItem (MBullet 45) 1 [FOne 115 $"ee " x []]] in
+   wf_b t = true /\
+   text_of (spell t) = [ $"> see [the *new* and __very good__ site](/s), ok" ++ [10%Z]; $"> " ++ [10%Z]; $"> - see [the *new* and __very good__ site](/s)" ++ [10%Z] ] /\
+   html_f (mkHopts false false) true (FOne 115 $"ee " x $", ok") =
+     $"see <a href=" ++ [34%Z] ++ $"/s" ++ [34%Z] ++ $">the <em>new</em> and <strong>very good</strong> site</a>, ok").
+Proof. vm_compute. repeat split; reflexivity. Qed.
+Print Assumptions C03_link_with_emphasis_instance.
